@@ -1075,7 +1075,7 @@ func (c *Ctx) atClauses(s *State, label string, pos token.Pos) {
 				c.bindingErrors = append(c.bindingErrors, "ghost clause must have the form `lhs == expr`")
 				continue
 			}
-			v := asInt(c.ceval(be.Y, s, nil, pos))
+			v := asInt(c.ceval(be.Y, s, c.atArgs, pos))
 			var idxs []string
 			lhs := be.X
 			for {
